@@ -1,5 +1,5 @@
-CONSTANT L = 2
-CONSTANT RemFoldAll = TRUE
+CONSTANT L = 1
+CONSTANT RemFoldAll = FALSE
 CONSTANT CheckRemCommit = TRUE
 SPECIFICATION Spec
 INVARIANT Sound
